@@ -1512,16 +1512,12 @@ class ComputeGraph(MultiDiGraph):
 
         if label == "t":
             return label
-        if label in self._node_names:
+        label_new = label
+        while label_new in self._node_names:
             n = self._node_names[label]
-            if n == 0:
-                label_new = f"{label}_v1"
-            else:
-                label_new = f"{label}_v{n + 1}"
             self._node_names[label] += 1
-        else:
-            label_new = label
-            self._node_names[label] = 0
+            label_new = f"{label}_v{n + 1}"
+        self._node_names[label_new] = 0
         return label_new
 
     @staticmethod
